@@ -543,6 +543,20 @@ func goJSONRoundTrip(a []string) string {
 	return c20RoundTrip(r, r.value())
 }
 
+// c20HexLen: byte length of the fixed-size hex families (0 for the others)
+func c20HexLen(r c20Resolved) int {
+	if r.maybe {
+		return 0
+	}
+	switch r.fam {
+	case "bits":
+		return atoi(r.ttoks[0])
+	case "h256", "i256":
+		return 32
+	}
+	return 0
+}
+
 func goJSONMalformed(a []string) (res string) {
 	doc := h.MustUnHex(a[len(a)-1])
 	var typ reflect.Type
@@ -569,6 +583,18 @@ func goJSONMalformed(a []string) (res string) {
 	_ = q.Interface().(json.Unmarshaler).UnmarshalJSON(doc)
 	if err != nil || r.c == nil {
 		return "ok"
+	}
+	// accepted: fixed-size hex families must have been given exactly 2·n hex digits
+	if n := c20HexLen(r); n > 0 {
+		cnt := 0
+		for _, b := range doc {
+			if b >= '0' && b <= '9' || b >= 'a' && b <= 'f' || b >= 'A' && b <= 'F' {
+				cnt++
+			}
+		}
+		if cnt != 2*n {
+			return fmt.Sprintf("FAIL accepted-wrong-length digits=%d want=%d", cnt, 2*n)
+		}
 	}
 	// accepted: the value must be printable and must round-trip
 	stage = "remarshal"
